@@ -101,3 +101,102 @@ def parse_warnings(stream_text: str):
 
 def mask_pformat(doc: nodes.Node) -> str:
     return doc.pformat()
+
+
+# ------------------------------------------------------------------------------------------------
+# In-process Sphinx front end
+ANSI_RE = re.compile(r"\x1b\[[0-9;]*m")
+
+
+class SphinxDriver:
+    """One in-process Sphinx application over a scratch source directory.
+
+    ``read(docname, text)`` writes the file, re-reads it through the real reader/parser and returns
+    (doctree after post-transforms, warning text of that step).
+    """
+
+    def __init__(self, root: Path, conf: str = "", files: dict | None = None, buildername: str = "html",
+                 confoverrides: dict | None = None, build: bool = True):
+        from sphinx.testing.util import SphinxTestApp
+
+        self.root = Path(root)
+        self.src = self.root / "src"
+        self.src.mkdir(parents=True, exist_ok=True)
+        (self.src / "conf.py").write_text("extensions=['myst_parser']\n" + conf)
+        if not (self.src / "index.md").exists():
+            (self.src / "index.md").write_text("# Index\n")
+        for rel, content in (files or {}).items():
+            p = self.src / rel
+            p.parent.mkdir(parents=True, exist_ok=True)
+            if isinstance(content, bytes):
+                p.write_bytes(content)
+            else:
+                p.write_text(content)
+        self.app = SphinxTestApp(srcdir=self.src, buildername=buildername, confoverrides=confoverrides or {})
+        if build:
+            self.app.build()
+        self.clear_warnings()
+
+    def clear_warnings(self):
+        self.app._warning.truncate(0)
+        self.app._warning.seek(0)
+        self.app.statuscode = 0
+
+    def warnings(self) -> str:
+        return ANSI_RE.sub("", self.app._warning.getvalue())
+
+    def write(self, docname: str, text: str):
+        p = self.src / (docname + ".md")
+        p.parent.mkdir(parents=True, exist_ok=True)
+        p.write_text(text)
+
+    def read(self, docname: str, text: str | None = None, resolve: bool = True):
+        app = self.app
+        if text is not None:
+            self.write(docname, text)
+        if docname not in app.env.project.docnames:
+            app.env.project.discover()
+        self.clear_warnings()
+        app.env.temp_data.clear()
+        app.env.ref_context.clear()
+        app.env.clear_doc(docname)
+        app.env.found_docs.add(docname)
+        app.env.all_docs.pop(docname, None)
+        app.builder.read_doc(docname, _cache=False)
+        getattr(app.env, "_pickled_doctree_cache", {}).pop(docname, None)
+        getattr(app.env, "_write_doc_doctree_cache", {}).pop(docname, None)
+        doc = app.env.get_doctree(docname)
+        if resolve:
+            app.env.apply_post_transforms(doc, docname)
+        return doc, self.warnings()
+
+    def resolve(self, docname: str):
+        self.clear_warnings()
+        getattr(self.app.env, "_write_doc_doctree_cache", {}).pop(docname, None)
+        doc = self.app.env.get_and_resolve_doctree(docname, self.app.builder)
+        return doc, self.warnings()
+
+    def close(self):
+        try:
+            self.app.cleanup()
+        except Exception:
+            pass
+
+
+SPHINX_WARN_RE = re.compile(r"^(?P<src>.*?):(?:(?P<line>\d+):)? (?P<level>WARNING|ERROR|CRITICAL|SEVERE): (?P<msg>.*)$")
+
+
+def parse_sphinx_warnings(text: str):
+    out = []
+    for ln in ANSI_RE.sub("", text).splitlines():
+        m = SPHINX_WARN_RE.match(ln)
+        if not m:
+            if out and ln.strip():
+                out[-1]["msg"] += "\n" + ln
+            continue
+        d = m.groupdict()
+        d["line"] = int(d["line"]) if d["line"] else None
+        tag = re.search(r"\[([a-z_]+\.[a-z_]+)\]\s*$", d["msg"])
+        d["tag"] = tag.group(1) if tag else None
+        out.append(d)
+    return out
